@@ -325,7 +325,8 @@ pub proof fn bn_lemma_convert_digit_of_@T@(x: @T@, s: @T@)
 """
 
 BU_FROM_U = r"""
-//! fn impl(From<@T@>for$BUint<N>)::from [ext_trait=From_@T@]
+//! fn impl(From<@T@>for$BUint<N>)::from [ext_trait=From_@T@ scope=(convert.*|numtraits_roots)]
+// (scope: also visible to unit numtraits_roots, which calls From<u32>/From<u128> -- its [assumed] entries drop out)
 // The loop writes only the non-zero digits of `int`, and writes digit i at index i unchecked: it panics (index out of
 // bounds) exactly when some digit at an index >= N is non-zero, i.e. when int >= 2^BITS.  `Self::bn_m() > int` is the
 // weakest precondition; it is implied by `N * $DB >= @TB@` (target at least as wide as the source, C13).
